@@ -14,6 +14,10 @@ variable {C D : Type}
 /-- the source treats a failed Stat as a miss (read from loadCachedWithFrontMatter's hit condition) -/
 theorem source_stat_failure_is_miss : Generated.cacheStatFailureIsMiss = true := by decide
 
+/-- the function has exactly two successful exits: the hit (the entry, under the condition above) and the miss (what this call has just read
+    and parsed); a third way of answering — e.g. re-stamping an old entry because "the body did not change" — is not there -/
+theorem source_two_ways_to_answer : Generated.cacheReturns = (2, 1, 1) := by decide
+
 /-- the cache's invariant: an entry was produced from content that the file had at the recorded (non-zero) mtime; `hist n mt` remembers which
     content file `n` had at mtime `mt` (every write records it) -/
 structure Inv (parse : C → Option D) (hist : Str → Nat → Option C) (s : State C D) : Prop where
